@@ -2,6 +2,15 @@
 """Collect confirmed seeded changes (scratch worktrees under /tmp/wt, results under /var/tmp/mutres) into /verif/seeded/<ID>-<n>/."""
 import json, os, re, shutil, sys
 NOTES = {
+ 'c19-13': 'round 5; missed at first (no dmd_read_word at an address that is 2 mod 4); caught after the read-alignment slice was added to C19',
+ 'c19-14': 'round 5; missed at first (the dirty query was never repeated while the display was dirty); caught after the sequential tail of the boot case repeats it and mon_capi requires the same answer until the frame is fetched',
+ 'c09-13': 'round 5; missed at first (no loop-back transmission after a receiver reset with the receive FIFO pointers off zero); caught after the loop-back-after-receiver-reset slice was added to C09',
+ 'c13-15': 'round 5; missed at first (returns were only tried with the stack pointer at the very bottom of RAM); caught after the fault-in-a-later-pop slice was added to C13',
+ 'c17-13': 'round 5; missed at first (no transmitter / receiver reset after the rate was programmed); caught after C17 histories gained reset + re-enable commands',
+ 'c17-15': 'round 5; missed at first (the interrupt status register was never read between a tick and its acknowledgement); caught after C17 histories gained non-acknowledging reads',
+ 'c14-13': 'round 5; missed at first (DUART histories never ran the processor); caught after the masked-processor slice (NOP sled at priority level 15 with arrivals) was added to C14',
+ 'c07-14': 'round 5; missed at first (a presented request was never withdrawn by a disable command before delivery); caught after those events were added to C07 (and mon_c07 reads the last interrupt poll)',
+ 'c06-13': 'round 5; caught through the translated dispatch arms (no failing input needed by C06; C05 exercises the conditional returns)',
  'c08-10': 'round 4; missed at first (no case programmed remote loop-back, MR2 bits 7:6 = 11); caught after the mode x receiver-enable slice was added to C08',
  'c09-11': 'round 4; missed at first (no transmit history with four unread characters on the same channel); caught after the transmit-with-receive-backlog slice was added to C09',
  'c09-12': 'round 4; missed at first (loop-back was only exercised with the receiver enabled); caught after the mode x receiver-state slice was added to C09',
